@@ -260,7 +260,10 @@ func c10Program(r *core.Rng) []ast.Node {
 			default:
 				src = icall("zsame", ast.Index{X: nm("xm"), I: il(1)})
 			}
-			if r.Chance(1, 4) {
+			if r.Chance(1, 3) {
+				// the right operand is itself a sum (the sum on the left is then not the instruction before)
+				ss = append(ss, ast.Assign{Name: v, Value: ast.Binary{Op: "+", L: ast.Slice{X: a, I: il(0), J: il(1)}, R: ast.Binary{Op: "+", L: arr(80 + r.Intn(9)), R: arr(90 + r.Intn(9))}}})
+			} else if r.Chance(1, 4) {
 				ss = append(ss, ast.Assign{Name: v, Value: ast.Binary{Op: "+", L: src, R: arr(r.Intn(9))}})
 			} else {
 				ss = append(ss, ast.Assign{Name: v, Value: ast.Slice{X: src, I: lo, J: ast.Binary{Op: "-", L: ast.Unary{Op: "#", X: src}, R: il(int64(r.Intn(2)))}}})
